@@ -288,3 +288,9 @@ PROPS["C11"].update(
                 "objects and nodes are compared with an independent matcher (bounded).")
 
 PROPS["C08"]["modules"] = list(PROPS["C08"]["modules"]) + ["contracts.worker"]
+
+PROPS["C19"].update(
+    modules=["contracts.tunnel"], technique=E1_TECHNIQUE,
+    explanation=PROPS["C19"]["explanation"] + " Order independence of connects_nodes is additionally proved as a contract: "
+                "the answer is the symmetric 'one node on each side' formula over the (uninterpreted) side membership "
+                "predicates (E1).")
